@@ -30,6 +30,7 @@ import (
 	"math/rand"
 	"os"
 	"reflect"
+	"runtime/debug"
 	"sort"
 	"strings"
 
@@ -578,6 +579,9 @@ func openFile(data []byte) (*parquet.File, error) {
 
 // guarded runs f and turns a panic into an error.
 func guarded(f func() error) (err error) {
+	// a writer fed with rows of another schema (what a broken identity test
+	// does) reads through wild pointers: make such faults recoverable panics
+	defer debug.SetPanicOnFault(debug.SetPanicOnFault(true))
 	defer func() {
 		if r := recover(); r != nil {
 			err = fmt.Errorf("PANIC: %v", r)
@@ -1042,12 +1046,11 @@ func (f *findings) first(class string) *finding {
 // (fewer rows, fewer edits) and reported with its own minimal replay.
 func runCase(c *core.Ctx, cs c12Case, sample bool) {
 	out, bucket, nontrivial := check(c, &cs)
-	seen := map[string]bool{}
 	for _, f := range out.list {
-		if seen[f.class] {
-			continue
+		if reported[f.class] {
+			continue // core keeps one replay per class: no need to shrink another instance
 		}
-		seen[f.class] = true
+		reported[f.class] = true
 		min := shrink(c, cs, f.class)
 		mo, _, _ := check(c, &min)
 		g := mo.first(f.class)
@@ -1067,6 +1070,8 @@ func runCase(c *core.Ctx, cs c12Case, sample bool) {
 		c.Sample(map[string]any{"case": cs, "source": b.src.Text(), "target": b.tgt.Text()})
 	}
 }
+
+var reported = map[string]bool{}
 
 func shrink(c *core.Ctx, cs c12Case, class string) c12Case {
 	fails := func(t *c12Case) bool {
@@ -1109,7 +1114,7 @@ func run(c *core.Ctx) {
 		c.Note("model selected by C12_MODEL=%s", modelMode)
 	}
 	corpus(c)
-	n := c.N(2500, 20000)
+	n := c.N(4000, 24000)
 	var vm []string
 	for i := 0; i < n; i++ {
 		seed := c.Seed*1000003 + int64(i)
